@@ -28,8 +28,8 @@ FLOORS = {"calls-checked": 1000, "rejections-checked": 100, "sanitised-string-wr
 
 def shards(tier, seed):
     if tier == "quick":
-        return [{"n": 1250, "part": p} for p in range(16)] + [{"grid": True}]
-    return [{"n": 15625, "part": p} for p in range(64)] + [{"grid": True}]
+        return [{"n": 1250, "part": p} for p in range(16)] + [{"grid": True}] + [{"sweep": (lo, lo + 275)} for lo in range(0, 2200, 275)]
+    return [{"n": 15625, "part": p} for p in range(64)] + [{"grid": True}] + [{"sweep": (lo, lo + 1100)} for lo in range(0, 13200, 1100)] + [{"sweep": (c - 3, c + 4)} for c in (16384, 32768, 65536)]
 
 
 INT_OPS = {"add_byte": "byte", "add_char": "char", "add_short": "short", "add_three": "three", "add_int": "int"}
@@ -59,6 +59,22 @@ def run(shard, rec, tier, seed):
     W = ns.EoWriter
     if shard.get("grid"):
         run_grid(W, rec)
+        return
+    if "sweep" in shard:
+        # string-length sweep: strings of every length lo..hi (y-diaeresis first, last and every 89th character)
+        # through every string method, with the declared length equal / one short / one long / padded beyond
+        lo, hi = shard["sweep"]
+        for L in range(lo, hi):
+            s = "".join("\xff" if i in (0, L - 1) or i % 89 == 3 else "abc dXY\xe9"[(i + L) % 8] for i in range(L))
+            mode = L % 2 == 1
+            hist = [("add_short", 300), ("mode", mode), ("add_string", s), ("add_encoded_string", s),
+                    ("add_fixed_string", s, L, False), ("add_fixed_encoded_string", s, L, L % 3 == 0),
+                    ("add_fixed_string", s, L + (1, 2, 64)[L % 3], True), ("add_fixed_string", s, L + 1, False),
+                    ("add_fixed_encoded_string", s, max(0, L - 1), L % 2 == 0), ("mode", not mode), ("add_fixed_encoded_string", s, L + 5, True), ("add_char", 9)]
+            run_history(W, rec, hist)
+            rec.case(("sweep", L))
+            rec.count("string-lengths-swept")
+        rec.seen("string-length-ranges", "%d..%d" % (lo, hi - 1))
         return
     rng = random.Random("C09-%d-%d" % (seed, shard["part"]))
     for _ in range(shard["n"]):
